@@ -2,6 +2,8 @@ package sym
 
 import (
 	"fmt"
+	"os"
+	"time"
 	"go/token"
 	"go/types"
 	"sort"
@@ -150,12 +152,14 @@ type Engine struct {
 	pinned        map[string]uint64
 	program       *Program
 	fnByName      map[string]*ssa.Function
+	crossN        map[string]int
 	decided       map[uint32]bool
 	pcVars        map[uint32]bool
 	pcSeen        map[uint32]bool
 	uniq          map[uint32]uniqRes
 	tableInit     *ssa.Function
 	skipInit      map[*ssa.Function]func()
+	trace         []string
 	curFn         *ssa.Function
 	curInstr      ssa.Instruction
 }
@@ -246,6 +250,10 @@ func (e *Engine) freeLiteral(c *term.T) bool {
 
 // branch decides a symbolic condition, forking when both sides are feasible.
 func (e *Engine) branch(c *term.T, what string) bool {
+	term.DebugANF = e.dbg
+	if !c.IsConst() {
+		c = term.RewriteCond(c)
+	}
 	if c.IsTrue() {
 		return true
 	}
@@ -274,6 +282,12 @@ func (e *Engine) branch(c *term.T, what string) bool {
 		e.pending = append(e.pending, alt)
 		d = 1
 	} else {
+		t0 := time.Now()
+		defer func() {
+			if dt := time.Since(t0).Seconds(); dt > 0.5 && e.dbg {
+				fmt.Fprintf(os.Stderr, "  slow branch (%.1fs) %s%s cond=%s\n", dt, what, e.where(), c)
+			}
+		}()
 		rt, _ := e.S.CheckWith(c, nil)
 		e.res.FeasQueries++
 		switch rt {
@@ -299,6 +313,9 @@ func (e *Engine) branch(c *term.T, what string) bool {
 		}
 	}
 	e.decisions = append(e.decisions, d)
+	if e.dbg {
+		e.trace = append(e.trace, fmt.Sprintf("%s=%d@%s", what, d, e.posStr(e.curPos())))
+	}
 	if d == 1 {
 		e.assertPC(c)
 		return true
@@ -623,6 +640,13 @@ func (e *Engine) runFrame(fr *frame) {
 	}
 }
 
+func (e *Engine) curPos() token.Pos {
+	if e.curInstr == nil {
+		return token.NoPos
+	}
+	return e.curInstr.Pos()
+}
+
 // where describes the instruction being executed (for diagnostics).
 func (e *Engine) where() string {
 	if e.curFn == nil || e.curInstr == nil {
@@ -894,8 +918,8 @@ func (e *Engine) tryMerge(fr *frame, instr *ssa.If, c *term.T) bool {
 	if join == nil {
 		return false
 	}
-	// the join must have exactly the two merged predecessors
-	if len(join.Preds) != 2 {
+	// a join that is the cut point of an invariant cut is handled by the cut
+	if fr.cut != nil && fr.cut.header == join {
 		return false
 	}
 	var phis []*ssa.Phi
